@@ -3064,6 +3064,10 @@ class Parser:
                     prop.set("data_consistency", self._advance_any() and self._prev.text.upper())
                 elif self._match_text_seq("HISTORY_RETENTION_PERIOD", "="):
                     prop.set("retention_period", self._parse_retention_period())
+                else:
+                    # An unknown option would never be consumed: report it instead of spinning on it forever
+                    self.raise_error("Unknown SYSTEM_VERSIONING option")
+                    break
 
                 self._match(TokenType.COMMA)
 
@@ -3080,6 +3084,10 @@ class Parser:
                     prop.set("filter_column", self._parse_column())
                 elif self._match_text_seq("RETENTION_PERIOD", "="):
                     prop.set("retention_period", self._parse_retention_period())
+                else:
+                    # An unknown option would never be consumed: report it instead of spinning on it forever
+                    self.raise_error("Unknown DATA_DELETION option")
+                    break
 
                 self._match(TokenType.COMMA)
 
